@@ -24,6 +24,12 @@ Theorem C10_replace : forall cap d1 d2 sul vrs,
   /\ o_snaps (run_output cap d1 sul vrs) = o_snaps (run_output cap d2 sul vrs).
 Proof. exact run_output_replaces. Qed.
 
+(* end to end: for every buffer size and prior content the file is write_file's, and its size is the reported total *)
+Theorem C10_file : forall c recs cap disk0 st,
+  write_buffered c recs cap disk0 = OK st ->
+  write_file c recs = OK (o_disk st) /\ o_total st = zlen (o_disk st).
+Proof. exact write_buffered_file. Qed.
+
 (* input chunking: iterating the chunked generator yields the rows unchanged, for every chunk size > 0 and None *)
 Theorem C10_in_invisible : forall (A : Type) (rows : list A) chunk,
   match chunk with Some c => 0 < c | None => True end -> chunked rows chunk = rows.
@@ -38,3 +44,4 @@ Print Assumptions C10_out_invisible.
 Print Assumptions C10_out_independent.
 Print Assumptions C10_replace.
 Print Assumptions C10_in_invisible.
+Print Assumptions C10_file.
